@@ -348,6 +348,35 @@ def select_blocks(chk, mpmath, frac):
     return out
 
 
+def binding_selftest(chk, sw, bad):
+    """DESIGN 3.4: accepted traces with (a) one precision write removed, (b) one logged precision bumped must be rejected"""
+    import copy
+    badtr = {t for (t, j) in bad}
+    cands = [t for t, tr in enumerate(sw.traces) if t not in badtr and sum(1 for e in tr if e["ev"] == "set_prec") >= 2][:40]
+    mutants = []
+    for t in cands:
+        tr = sw.traces[t]
+        idx = [j for j, e in enumerate(tr) if e["ev"] == "set_prec"]
+        chg = [j for k, j in enumerate(idx) if k > 0 and tr[j]["n"] != tr[idx[k - 1]]["n"]]
+        if not chg:
+            continue
+        first = chg[0]                                              # the first write that changes the precision ...
+        a = [copy.deepcopy(e) for j, e in enumerate(tr) if not (e["ev"] == "set_prec" and j > first)]   # ... is never undone in the trace
+        b = copy.deepcopy(tr); b[idx[0]]["n"] += 1                  # a write logged with another precision than the state shows
+        mutants += [a, b]
+    if not mutants:
+        chk.notes.append("binding self-test: no accepted trace with two precision writes in this run")
+        return
+    res = judge_traces(mutants, "c11self")
+    flagged = {t for (t, j) in res}
+    missed = [t for t in range(len(mutants)) if t not in flagged]
+    # removing a write that restores an unchanged precision is invisible by construction: require most, and every bumped one
+    bumped_missed = [t for t in missed if t % 2 == 1]
+    if bumped_missed or len(missed) > len(mutants) // 4:
+        chk.machinery("binding self-test: %d of %d corrupted precision traces were accepted (bumped-write copies accepted: %d)" % (len(missed), len(mutants), len(bumped_missed)))
+    chk.notes.append("binding self-test: %d corrupted copies of accepted precision traces (write removed / logged precision bumped), %d rejected" % (len(mutants), len(flagged)))
+
+
 def main():
     chk = core.Check(PROP, LEVEL)
     mpmath = core.use_repo()
@@ -359,6 +388,7 @@ def main():
     precs = chk.pick([54], PRECS)
     sw = run_parallel(chk, blocks, precs, chk.pick(2, 3))
     bad = judge_traces(sw.traces, PROP)
+    binding_selftest(chk, sw, bad)
     nev = sum(len(t) for t in sw.traces)
     chk.cov["evaluations"] = sw.calls
     chk.cov["distinct_nontrivial"] = len({(m["block"], m["stmt"], m["P"], tuple(m["inject"] or ())) for m in sw.meta.values()})
